@@ -12,6 +12,7 @@
 package main
 
 import (
+	"bytes"
 	"context"
 	"crypto/x509"
 	"encoding/pem"
@@ -76,7 +77,12 @@ func main() {
 	leaf := lib.SimpleChain("c03", 1, "EC-256", 0)
 	chain := leaf.Chain() // leaf, inter, root
 	other := lib.Mint(nil, lib.CertSpec{CN: "c03-unrelated", Kind: "ca", KeyIdx: 3})
-	certs := map[string]*x509.Certificate{"leaf": chain[0], "inter": chain[1], "root": chain[2], "other": other.Cert}
+	// a non-CA certificate that NAMES itself as its issuer (issuer = subject) but was signed by another key: not self-signed
+	selfNamed := lib.Mint(other, lib.CertSpec{Subject: &other.Cert.Subject, Kind: "codesign", KeyIdx: 2})
+	if !bytes.Equal(selfNamed.Cert.RawIssuer, selfNamed.Cert.RawSubject) || selfNamed.Cert.CheckSignatureFrom(selfNamed.Cert) == nil {
+		panic("harness bug: the self-named certificate is not what it should be")
+	}
+	certs := map[string]*x509.Certificate{"leaf": chain[0], "inter": chain[1], "root": chain[2], "other": other.Cert, "selfnamed": selfNamed.Cert}
 	desc := lib.Desc(ocispec.MediaTypeImageManifest, []byte("c03"))
 	sigs := map[string][]byte{}
 	for _, f := range lib.Formats {
@@ -109,9 +115,9 @@ func main() {
 					continue
 				}
 				st := storeT{Type: t, Name: nm, Exists: true}
-				for _, c := range []string{"root", "inter", "other", "leaf"} {
+				for _, c := range []string{"root", "inter", "other", "leaf", "selfnamed"} {
 					p := 35
-					if c == "leaf" {
+					if c == "leaf" || c == "selfnamed" {
 						p = 8
 					}
 					if c == "other" {
@@ -153,9 +159,11 @@ func main() {
 			}
 			// an entry that is not a certificate file (whatever it is called): the store cannot be loaded
 			if rng.Intn(8) == 0 {
-				st.Junk = []string{".DS_Store", ".git/", "README.txt", "old/", "..data/", ".root.crt.swp"}[rng.Intn(6)]
+				st.Junk = []string{".DS_Store", ".git/", "README.txt", "old/", "..data/", ".root.crt.swp", "empty.crt", "zz-empty.pem"}[rng.Intn(8)]
 				if strings.HasSuffix(st.Junk, "/") {
 					os.MkdirAll(filepath.Join(d, st.Junk), 0o755)
+				} else if strings.Contains(st.Junk, "empty") {
+					os.WriteFile(filepath.Join(d, st.Junk), nil, 0o644) // a file holding no certificate at all
 				} else {
 					os.WriteFile(filepath.Join(d, st.Junk), []byte("\x00\x00\x00\x01Bud1 not a certificate"), 0o644)
 				}
@@ -213,7 +221,7 @@ func main() {
 				return false
 			}
 			for _, c := range st.Certs {
-				if c == "leaf" || (st.Type == "tsa" && c == "inter") {
+				if c == "leaf" || c == "selfnamed" || (st.Type == "tsa" && c == "inter") {
 					return false
 				}
 			}
